@@ -88,6 +88,7 @@ class TriggerHandler:
         """
         self.__old_thread_trace = None
         self.__old_sys_trace = None
+        self.__shutdown = False
         self._push_service = push_service
         self._tp_config: List[Trigger] = []
         self._config = config
@@ -96,6 +97,7 @@ class TriggerHandler:
 
     def start(self):
         """Start the trigger handler."""
+        self.__shutdown = False
         # if we call settrace we cannot use debugger,
         # so we allow the settrace to be disabled, so we can at least debug around it
         if self._config.NO_TRACE:
@@ -115,6 +117,9 @@ class TriggerHandler:
 
         :param new_config: the new config to use
         """
+        if self.__shutdown:
+            # a config update that was still queued when we were shut down must not bring the tracepoints back
+            return
         self._tp_config = new_config
 
     def trace_call(self, frame: FrameType, event: str, arg):
@@ -243,6 +248,7 @@ class TriggerHandler:
         Reset the settrace to the previous values.
         """
         # take no further actions, even for threads that keep calling our trace function
+        self.__shutdown = True
         self._tp_config = []
         if self._config.NO_TRACE:
             # we never installed our hooks, so there is nothing of ours to remove
